@@ -66,11 +66,29 @@ PLAIN = {
     'e': math.e, 'pi': math.pi,
 }
 
+
+# user functions the check registers with ExecComp.register(name, f, complex_safe=True): part of the
+# "supported functions" once registered.  Plain Python arithmetic, hence complex-safe and elementwise.
+def _omv_sq1(x):
+    return x * x + 1.0
+
+
+def _omv_ratio(x):
+    return x / (1.0 + x * x)
+
+
+def _omv_hyp(a, b):
+    return (a * a + b * b + 1.0) ** 0.5
+
+
+REGISTERED = {'omv_sq1': _omv_sq1, 'omv_ratio': _omv_ratio, 'omv_hyp': _omv_hyp}
+PLAIN.update(REGISTERED)
+
 UNARY_FREE = ['sin', 'cos', 'tanh', 'sinh', 'cosh', 'exp', 'expm1', 'arctan', 'atan', 'arcsinh', 'asinh',
-              'erf', 'erfc']
+              'erf', 'erfc', 'omv_sq1', 'omv_ratio']
 UNARY_RESTRICTED = ['tan', 'log', 'log10', 'log1p', 'arcsin', 'asin', 'arccos', 'acos', 'arccosh', 'acosh',
                     'abs']
-BINARY_EW = ['power', 'arctan2', 'maximum', 'minimum', 'fmax', 'fmin']
+BINARY_EW = ['power', 'arctan2', 'maximum', 'minimum', 'fmax', 'fmin', 'omv_hyp']
 LOGIC = ['isinf', 'isnan']
 REDUCE = ['sum', 'prod', 'max', 'min']
 LINALG = ['dot', 'inner', 'outer', 'kron', 'matmul', 'tensordot', 'diff']
@@ -500,6 +518,9 @@ class ExprGen(object):
             if rng.random() < 0.6:
                 return 'arctan2(%s, (%s)**2 + 0.5)' % (a, b)
             return 'arctan2(%s, %s)' % (a, b)
+        if f == 'omv_hyp':
+            self.features.add('registered-binary')
+            return 'omv_hyp(%s, %s)' % (a, b)
         self.features.add('kink-select')
         if rng.random() < 0.5:
             return '%s(%s, %s)' % (f, a, b)
